@@ -1093,7 +1093,10 @@ def check(run, repo):
         'references,misc], total = sum/prod of it, references disappear when switched off, per-species keyword '
         'blocks are routed, species-level G=H-S and F=U-S incl. S_elements. The real constructors/setters are '
         'interpreted to decide the imaginary-mode filter and that every cached field is refreshed. Every '
-        'documented point-group label is resolved through RigidRotor.__init__.')
+        'documented point-group label is resolved through RigidRotor.__init__. Vectors with several imaginary entries '
+        '(and a real entry equal to the substitute), species with two attached models, an option of the modes '
+        '(include_ZPE) handed to every species getter, and rotational temperatures taken from a structure (textbook '
+        'function of the principal moments the structure reports, of nothing else it says) are instances of their own.')
     run.assumptions = ['identities over the reals; pmutt.constants modelled as R=kb*Na, kb[u]=kb*U[u], h[u]=h*U[u], '
                        'convert_unit=U[final]/U[initial] (verified on the literal tables by C12)',
                        '_force_pass_arguments/_pass_expected_arguments modelled by their documented contract']
